@@ -9,7 +9,7 @@ git -C /repo worktree add -q --detach $wt HEAD || exit 3
 export CARGO_TARGET_DIR=/root/scratch/wt-target
 cd $wt
 demo_is_unit=0
-if grep -q 'mod seed_demo' $src/demo.rs 2>/dev/null || grep -q 'src/seed_demo.rs' $src/demo.rs 2>/dev/null; then demo_is_unit=1; fi
+if grep -q 'mod seed_demo' $src/demo.rs 2>/dev/null || grep -q 'src/seed_demo.rs' $src/demo.rs 2>/dev/null || grep -q 'crate::' $src/demo.rs 2>/dev/null; then demo_is_unit=1; fi
 place_demo() {
   if [ $demo_is_unit = 1 ]; then cp $src/demo.rs src/seed_demo.rs; grep -q 'mod seed_demo' src/lib.rs || echo '#[cfg(test)] mod seed_demo;' >> src/lib.rs; else cp $src/demo.rs tests/seed_demo.rs; fi
 }
